@@ -37,6 +37,8 @@ def expectLocName (o : Opts) : Step → String
   | .write_sync => "LocSyncWrite"
   | .read_sync => "LocSyncRead"
   | .ptrace_traceme => "LocPtraceMe"
+  | .prctl_pdeathsig => "LocPtraceMe"
+  | .getppid => "LocPtraceMe"
   | .kill_stop => "LocStop"
   | .seccomp => "LocSeccomp"
   | .execve | .execveat => "LocExecve"
